@@ -64,23 +64,49 @@ def _logger_local(name_node) -> bool:
         return False
     stores = [a for a in ast.walk(fn) if isinstance(a, (ast.Assign, ast.AugAssign, ast.AnnAssign, ast.For, ast.With, ast.NamedExpr))
               and any(isinstance(x, ast.Name) and x.id == name_node.id and isinstance(x.ctx, ast.Store) for x in ast.walk(a))]
-    return bool(stores) and all(is_logger_assign(a) for a in stores)
+    if stores:
+        return all(is_logger_assign(a) for a in stores)
+    # a module-level logger (`_LOGGER = logging.getLogger(__name__)`): bound at the top level of the module only, to a logger
+    mod = fn
+    while mod is not None and not isinstance(mod, ast.Module):
+        mod = getattr(mod, "_parent", None)
+    if mod is None:
+        return False
+    cache = getattr(mod, "_module_loggers", None)
+    if cache is None:
+        # names bound at the top level of the module to a logger, and bound nowhere else in the module (no `global` rebinding either)
+        cand = {a.targets[0].id for a in mod.body if is_logger_assign(a)}
+        for a in ast.walk(mod):
+            if isinstance(a, ast.Global):
+                cand -= set(a.names)
+            elif isinstance(a, ast.Name) and isinstance(a.ctx, ast.Store) and a.id in cand:
+                par = getattr(a, "_parent", None)
+                if not (par in mod.body and is_logger_assign(par)):
+                    cand.discard(a.id)
+        cache = mod._module_loggers = frozenset(cand)
+    return name_node.id in cache
 
 
-def is_logging_stmt(st) -> bool:
+def logger_names_in(stmts) -> frozenset:
+    """the names, among those used in these (parent-linked) statements, that only ever hold a logger"""
+    return frozenset(x.id for s in stmts for x in ast.walk(s) if isinstance(x, ast.Name) and isinstance(x.ctx, ast.Load) and _logger_local(x))
+
+
+def is_logging_stmt(st, loggers=frozenset()) -> bool:
     if isinstance(st, ast.Expr) and isinstance(st.value, ast.Call):
         f = ast.unparse(st.value.func)
         if may_raise_formatting(st.value):
             return False
-        fn_ = st.value.func
-        if isinstance(fn_, ast.Attribute) and fn_.attr in LOG_METHODS and isinstance(fn_.value, ast.Name) and _logger_local(fn_.value):
+        if f.startswith("logging.") or f.startswith("self.fhs_logger.") or f == "print":
             return True
-        return f.startswith("logging.") or f.startswith("self.fhs_logger.") or f == "print"
+        fn_ = st.value.func
+        return isinstance(fn_, ast.Attribute) and fn_.attr in LOG_METHODS and isinstance(fn_.value, ast.Name) \
+            and (fn_.value.id in loggers or _logger_local(fn_.value))
     if isinstance(st, ast.Expr) and isinstance(st.value, ast.Constant):
         return True
     if isinstance(st, ast.If) and not any(isinstance(x, (ast.Call, ast.Await, ast.NamedExpr)) for x in ast.walk(st.test)):
         # a branch (on a plain flag) whose every arm only logs
-        return all(is_logging_stmt(b) for b in st.body) and all(is_logging_stmt(b) for b in st.orelse)
+        return all(is_logging_stmt(b, loggers) for b in st.body) and all(is_logging_stmt(b, loggers) for b in st.orelse)
     return False
 
 
